@@ -340,7 +340,7 @@ def _strings(n: Names):
     return [
         n.a, f" {n.a} ", n.uni, f"{n.a}\n{n.b}", "", " ", "\t", "\n" + n.a + " ",
         "null", "true", "no", "1", "1.5", "1e3", "0x10", "2020-01-01", "12:30:00", "~", "- " + n.a, f"{n.a}: {n.b}", "# " + n.a,
-        "'", '"', "{}", "[]", f"{n.a}\\{n.b}", "\x00", "\x85", " ", "@" + n.a, "!" + n.a, "&" + n.a, "*" + n.a, "|", ">", "%" + n.a, "? " + n.a,
+        "'", '"', "{}", "[]", f"{n.a}\\{n.b}", "\x00", "\x85", f"{n.a}\x85{n.b}", " ", "@" + n.a, "!" + n.a, "&" + n.a, "*" + n.a, "|", ">", "%" + n.a, "? " + n.a,
         "=", "<<", ".inf", ".nan", "-", "---", "...", n.a * 200,
     ]  # fmt: skip
 
